@@ -221,6 +221,58 @@ func singleStore(a *ssa.Alloc) ssa.Value {
 	return nil
 }
 
+// copyOf: the alloc is a local struct copy (one whole-value store) whose fields are only read
+// through their addresses; returns the copied value. Used by rules that accept "for _, e := range xs" for "xs[i]".
+func copyOf(a *ssa.Alloc) ssa.Value {
+	var val ssa.Value
+	n := 0
+	for _, r := range *a.Referrers() {
+		switch x := r.(type) {
+		case *ssa.Store:
+			if x.Addr != a {
+				return nil
+			}
+			n++
+			val = x.Val
+		case *ssa.UnOp, *ssa.DebugRef:
+		case *ssa.FieldAddr, *ssa.IndexAddr:
+			if !readOnlyAddr(x.(ssa.Value), 0) {
+				return nil
+			}
+		default:
+			return nil
+		}
+	}
+	if n == 1 {
+		return val
+	}
+	return nil
+}
+
+// readOnlyAddr: the address (of a field/element of a local copy) is only loaded from,
+// possibly through further field/element addresses — never stored to, never passed on.
+func readOnlyAddr(v ssa.Value, d int) bool {
+	if d > 4 || v.Referrers() == nil {
+		return false
+	}
+	for _, r := range *v.Referrers() {
+		switch x := r.(type) {
+		case *ssa.UnOp, *ssa.DebugRef:
+		case *ssa.FieldAddr:
+			if !readOnlyAddr(x, d+1) {
+				return false
+			}
+		case *ssa.IndexAddr:
+			if x.X != v || !readOnlyAddr(x, d+1) {
+				return false
+			}
+		default:
+			return false
+		}
+	}
+	return true
+}
+
 // helperResult: canonical form of result #idx of a spliced helper = its returned
 // expression(s), already expressed in the caller's terms.
 func helperResult(h *ssa.Function, idx int, d int) string {
